@@ -120,9 +120,11 @@ def main():
             fin = "no — not a C08 change (its author says so): big-endian accessors, reported by **C16**"
         if name == "C12r2-1":
             fin = "quick: no; **thorough: yes** (exhaustive f32 sweep, 760 s)"
-        n_own += fin.startswith("**yes") or "thorough: yes" in fin or name == "C08r4-2"
+        n_own += fin.startswith("**yes") or "thorough: yes" in fin
         print(f"| {name} | {fin} | {' '.join(ds)} | {' '.join(dc)} |")
-    print(f"\n{n_own} of {n_all} kept changes are reported by the final check of the property they break.")
+    print(f"\n{n_own} of {n_all} kept changes are reported by the final check of the property they were written against "
+          "(C12r2-1 by its thorough tier only); the remaining one, C08r4-2, is by its author's own account not a change to C08 "
+          "and is reported by C16, whose subject it is.")
 
 
 if __name__ == "__main__":
